@@ -72,7 +72,7 @@ def main():
     if meta.get('patch_applies') and do_demo and os.path.exists(f'{sd}/run.sh'):
         rc_wo, out_wo = sh(f'bash {sd}/run.sh', cwd=wt, env={'CARGO_TARGET_DIR': f'{wt}/target'}, timeout=2400)
         meta['demo_without_change'] = {'exit': rc_wo, 'tail': out_wo[-800:]}
-        sh('git checkout -- . && git clean -fdq -e _seed -e target -e th -e out', cwd=wt)
+        sh('git checkout -- . && git clean -fdq -e _seed -e _taken -e target -e th -e out', cwd=wt)
     dst = f'/verif/seeded/{cid}{suffix}'
     os.makedirs(dst, exist_ok=True)
     for f in os.listdir(sd):
